@@ -1,3 +1,16 @@
 from props.common import run_all as run  # noqa: F401
 
-META = {"claimed": False, "reason": "check not built yet (work in progress; the technique applies, see DESIGN.md section 5)"}
+META = {'claimed': True,
+ 'title': 'Diffie-Hellman: exact group-14 exponentiation, agreement, blinding-independent',
+ 'level_text': 'proof: crypto_dh.c is modelled over Z (constants and the group-14 table regenerated from the C; the table is proved to be the RFC 3526 prime). For EVERY base a, 32-byte private '
+               'value, 32-byte blinding value delivered by the entropy source and prior content of the output buffer, blinded_modexp returns the 256-byte big-endian encoding of a^(2^258+priv) mod p '
+               '(C10_blinded_modexp_correct; the two exponents handed to BN_mod_exp are positive and sum to 2^258+priv); public value = 2^(2^258+x) mod p, shared key = y^(2^258+x) mod p '
+               '(C10_generate_pub_correct, C10_compute_correct, C10_generate_correct); two parties always agree whatever the four blinding values (C10_agreement); the result is independent of the '
+               'blinding (C10_blinding_independent); entropy failure is reported; the sanity check accepts exactly the values numerically below p, via memcmp = numeric order on equal-length '
+               'big-endian strings (C10_sanitycheck_iff). 16 theorems over all of Z / all byte strings. Bound to the C by the correspondence run (OpenSSL build, entropy interposed): implementation '
+               'output = model evaluated inside coqc with a BigN evaluator proved equal to the Z model (C10_bridge_*), edge values 0, 1, p-1, p, p+1, 2^2048-1, random.',
+ 'level_note': 'Trusted: Coq kernel + vm_compute; OpenSSL BN_mod_exp / BN_mod_mul / BN_bin2bn / BN_bn2bin at their documented meaning (a^e mod m, a*b mod m) - they are oracles, compared on every '
+               "case; translator x_dhdrbg.py. Print Assumptions: the main theorems are closed under the global context; the three C10_bridge_* theorems rest on the standard library's primitive "
+               '63-bit integer axioms (Uint63, via Bignums BigN), listed in the evidence file.',
+ 'trusted_base': ['OpenSSL bignum arithmetic at its documented meaning', 'Coq primitive Uint63 axioms for the BigN evaluator used by the correspondence run only'],
+ 'assumptions': ['private values and blinding values are 32 bytes as the interface fixes']}
